@@ -28,10 +28,10 @@ def decDigits (n : Nat) : List Nat := (Nat.toDigits 10 n).map fun c => c.toNat -
 
 /-- `expanddof` for a 2-column input -/
 def expandDof (l : List (Nat × Nat)) : Option (List (Nat × Nat)) :=
-  if l.all (fun p => p.2 ≤ 6) then some l
+  if l.all (fun p => p.2 ≤ Generated.CoordConsts.maxDof) then some l
   else
     let e := l.flatMap fun p => (decDigits p.2).map fun d => (p.1, d)
-    if e.all (fun p => p.2 ≤ 6) then some e else none
+    if e.all (fun p => p.2 ≤ Generated.CoordConsts.maxDof) then some e else none
 
 /-- one `DOF_Ind, GRIDS_Ind` pair of `Ind_List` -/
 structure IndGroup (α : Type) where
